@@ -1146,6 +1146,27 @@ func checkOutputSink(p *core.Prog, r *core.Result) {
 				}
 			}
 		})
+		if !binds {
+			// a plain constructor is fine where its caller binds the fresh writer to the project right away
+			allBound := true
+			for _, c := range callers {
+				call, isCall := c.(*ssa.Call)
+				bound := false
+				if isCall {
+					core.Instrs(c.Parent(), func(in ssa.Instruction) {
+						if st, ok := in.(*ssa.Store); ok {
+							if fa, ok := st.Addr.(*ssa.FieldAddr); ok && fa.X == ssa.Value(call) && strings.HasSuffix(st.Val.Type().String(), "dawn.Project") {
+								bound = true
+							}
+						}
+					})
+				}
+				if !bound {
+					allBound = false
+				}
+			}
+			binds = allBound
+		}
 		r.Check(binds, "R18.8", fname(fn)+"#binds-project", p.InstrPos(callers[0].(ssa.Instruction)), "the writer is bound to the project (its sink is looked up at delivery time)", fmt.Sprintf("this constructor captures an Events value when the target is loaded, but Project.events is replaced later (%s): during run(callback=...) the target's evaluating/completion events go to the callback while its output lines go to the load-time observer, outside any evaluating..completion window there (the terminal renderer dereferences the missing per-target state and crashes)", where))
 	}
 	r.Floor("R18.8", nCtor, 1, "lineWriter constructors in use")
